@@ -28,7 +28,9 @@ def valid(lp, np_):
 
 class GenBinding:
     def __init__(self, lp="eg", np_=None, labelmap="int", seed=9, n_jobs=1, backend=None, data_seed=5, dims=2, bin_name="none",
-                 epsilon=0.0, container="ndarray", nrows=10, perm_seed=None, shift=0, scale=1, preconv=None, addarm_bin=None):
+                 epsilon=0.0, container="ndarray", nrows=10, perm_seed=None, shift=0, scale=1, preconv=None, addarm_bin=None,
+                 binary_rewards=False):
+        self.binary_rewards = binary_rewards      # rewards in {0, 1} whatever the binarizer set-up
         self.preconv = preconv          # rewards are converted by this binarizer in the binding (no binarizer installed)
         self.addarm_bin = addarm_bin    # add_arm installs this binarizer (or, with preconv, the binding switches to it)
         self.perm_seed = perm_seed
@@ -54,7 +56,7 @@ class GenBinding:
         self.data = []
         for i in range(nrows):
             label = labels[i % 3] if i < 6 else rnd.choice(labels + ["d"])
-            if lp == "ts" and bin_name == "none" and preconv is None:
+            if (lp == "ts" and bin_name == "none" and preconv is None) or binary_rewards:
                 reward = rnd.choice([0, 1])
             else:
                 reward = rnd.choice([0, 1, 2, 3])
@@ -77,7 +79,8 @@ class GenBinding:
         return {"lp": self.lp, "np": self.np, "labels": self.lmname, "seed": self.seed, "n_jobs": self.n_jobs,
                 "backend": self.backend, "dims": self.dims, "bin": self.bin_name, "epsilon": self.epsilon,
                 "container": self.container, "data_seed": self.data_seed, "perm_seed": self.perm_seed,
-                "shift": self.shift, "scale": self.scale, "preconv": self.preconv, "addarm_bin": self.addarm_bin}
+                "shift": self.shift, "scale": self.scale, "preconv": self.preconv, "addarm_bin": self.addarm_bin,
+                "binary_rewards": self.binary_rewards}
 
     def probe_labels(self, mab, full):
         first = self.spec_label(mab.arms[0])
